@@ -12,12 +12,23 @@
 //   mw <slotoff> <rel> <len> <seed>-> mw <rc|range> <sp>        (store through the acquired mapping)
 //   ra / sy                        -> ra|sy <rc>
 //   st                             -> st <fsize> <stat size>
+// Data listener (src/fs/iwdlsnr.h), dlsnr round:
+//   lsn <0|1|2>                    -> lsn ok     mode of the listener attached by the following `open`s: 0 none,
+//                                                1 passive recorder (handled = false), 2 handles resizes itself as the WAL
+//                                                does (handled = true, re-entrant truncate_unsafe while "applying")
+//   with a listener every result line ends with " |" followed by the calls the listener received during the op, in order:
+//     W:<off>:<len>:<hex payload>  onwrite     C:<off>:<len>:<noff>  oncopy     S:<off>:<val>:<len>  onset
+//     R:<osize>:<nsize>  onresize   r:<osize>:<nsize>  onresize received while the listener itself resizes (nested)
+//     Y  onsynced    X  onclosing    O  onopen
+//   mwr <slotoff> <rel> <len> <seed> -> mwr <rc|range> <sp>     store through the acquired mapping, reported by the caller
+//                                                itself with onwrite(slotoff + rel, ..) as iwkv does
+//   rx                             -> rx <fsize> <fnv32 of every page read through IWFS_EXT.read>
+//   fx                             -> fx <stat size> <fnv32 of every page of the file read with a pread of our own>
 #include "iwexfile.h"
 #include "iwp.h"
 #include "hx.h"
 #include <sys/stat.h>
 
-static IWFS_EXT f;
 static int is_open;
 static IW_RNUM rnum;
 static const char *path;
@@ -42,6 +53,81 @@ static const char* rcname(iwrc rc) {
   }
 }
 
+// ---- recording data listener
+static int lsn_mode, lsn_applying;
+static IWDLSNR lsnr;
+static char *evbuf;
+static size_t evlen, evcap, evcount;
+#define EV_MAXBYTES (1u << 20)
+#define EV_MAXCOUNT 200
+
+static void ev_room(size_t n) {
+  if (evlen + n + 1 > evcap) { evcap = (evlen + n + 1) * 2; evbuf = realloc(evbuf, evcap); }
+}
+static int ev_begin(void) {
+  if (++evcount > EV_MAXCOUNT || evlen > EV_MAXBYTES) {
+    if (evcount == EV_MAXCOUNT + 1) { ev_room(16); evlen += sprintf(evbuf + evlen, " overflow"); }
+    return 0;
+  }
+  return 1;
+}
+static iwrc l_onopen(struct iwdlsnr *self, const char *p, int mode) {
+  if (ev_begin()) { ev_room(8); evlen += sprintf(evbuf + evlen, " O"); }
+  return 0;
+}
+static iwrc l_onclosing(struct iwdlsnr *self) {
+  if (ev_begin()) { ev_room(8); evlen += sprintf(evbuf + evlen, " X"); }
+  return 0;
+}
+static iwrc l_onsynced(struct iwdlsnr *self, int flags) {
+  if (ev_begin()) { ev_room(8); evlen += sprintf(evbuf + evlen, " Y"); }
+  return 0;
+}
+static iwrc l_onset(struct iwdlsnr *self, off_t off, uint8_t val, off_t len, int flags) {
+  if (ev_begin()) { ev_room(80); evlen += sprintf(evbuf + evlen, " S:%lld:%u:%lld", (long long) off, (unsigned) val, (long long) len); }
+  return 0;
+}
+static iwrc l_oncopy(struct iwdlsnr *self, off_t off, off_t len, off_t noff, int flags) {
+  if (ev_begin()) { ev_room(100); evlen += sprintf(evbuf + evlen, " C:%lld:%lld:%lld", (long long) off, (long long) len, (long long) noff); }
+  return 0;
+}
+static iwrc l_onwrite(struct iwdlsnr *self, off_t off, const void *buf, off_t len, int flags) {
+  if (!ev_begin()) return 0;
+  if (len < 0 || (size_t) len > EV_MAXBYTES) { ev_room(80); evlen += sprintf(evbuf + evlen, " W:%lld:%lld:toolong", (long long) off, (long long) len); return 0; }
+  ev_room(80 + 2 * (size_t) len);
+  evlen += sprintf(evbuf + evlen, " W:%lld:%lld:", (long long) off, (long long) len);
+  if (!len) evbuf[evlen++] = '-';
+  for (off_t i = 0; i < len; ++i) evlen += sprintf(evbuf + evlen, "%02x", ((const uint8_t*) buf)[i]);
+  evbuf[evlen] = 0;
+  return 0;
+}
+static IWFS_EXT f;
+static iwrc l_onresize(struct iwdlsnr *self, off_t osize, off_t nsize, int flags, bool *handled) {
+  if (lsn_applying || lsn_mode != 2) {
+    if (ev_begin()) { ev_room(100); evlen += sprintf(evbuf + evlen, " %c:%lld:%lld", lsn_applying ? 'r' : 'R', (long long) osize, (long long) nsize); }
+    *handled = false;
+    return 0;
+  }
+  if (ev_begin()) { ev_room(100); evlen += sprintf(evbuf + evlen, " R:%lld:%lld", (long long) osize, (long long) nsize); }
+  *handled = true;              // as iwal.c: the listener performs the resize itself, with its own events switched off
+  lsn_applying = 1;
+  iwrc rc = f.truncate_unsafe(&f, nsize);
+  lsn_applying = 0;
+  return rc;
+}
+static void ev_reset(void) { evlen = 0; evcount = 0; if (evbuf) evbuf[0] = 0; }
+// end of a result line: the recorded listener calls (only when a listener is configured)
+static void ev_flush(void) {
+  if (lsn_mode) printf(" |%s", evlen ? evbuf : "");
+  printf("\n");
+  ev_reset();
+}
+static uint32_t fnv(const uint8_t *b, size_t n) {
+  uint32_t h = 2166136261u;
+  for (size_t i = 0; i < n; ++i) { h ^= b[i]; h *= 16777619u; }
+  return h;
+}
+
 static long long statsize(void) {
   struct stat s;
   if (stat(path, &s)) return -1;
@@ -64,14 +150,27 @@ int main(int argc, char **argv) {
   char *line = malloc(HX_MAXLINE), *w[16];
   while (fgets(line, HX_MAXLINE, stdin)) {
     int n = hx_words(line, w, 16);
-    if (!n) { printf("bad-op\n"); continue; }
+    if (!n) { printf("bad-op"); ev_flush(); continue; }
     const char *op = w[0];
+    if (!strcmp(op, "lsn") && n == 2) {
+      lsn_mode = atoi(w[1]);
+      if (lsn_mode < 0 || lsn_mode > 2) lsn_mode = 0;
+      printf("lsn ok\n");
+      ev_reset();
+      continue;
+    }
     if (!strcmp(op, "open") && n == 7) {
       do_close();
+      ev_reset();
       IWFS_EXT_OPTS o = { 0 };
       o.file.path = path;
       o.file.omode = IWFS_OWRITE | IWFS_OCREATE | (atoi(w[6]) ? IWFS_OTRUNC : 0);
       o.use_locks = true;
+      if (lsn_mode) {
+        lsnr.onopen = l_onopen; lsnr.onclosing = l_onclosing; lsnr.onset = l_onset; lsnr.oncopy = l_oncopy;
+        lsnr.onwrite = l_onwrite; lsnr.onresize = l_onresize; lsnr.onsynced = l_onsynced;
+        o.file.dlsnr = &lsnr;
+      }
       o.initial_size = strtoll(w[5], 0, 10);
       o.maxoff = strtoull(w[4], 0, 10);
       if (!strcmp(w[1], "fibo")) o.rspolicy = iw_exfile_szpolicy_fibo;
@@ -81,21 +180,21 @@ int main(int argc, char **argv) {
       }
       iwrc rc = iwfs_exfile_open(&f, &o);
       is_open = !rc;
-      printf("open %s %lld\n", rcname(rc), is_open ? fsize_now() : 0LL);
+      printf("open %s %lld", rcname(rc), is_open ? fsize_now() : 0LL); ev_flush();
       continue;
     }
-    if (!is_open) { printf("closed\n"); continue; }
+    if (!is_open) { printf("closed"); ev_flush(); continue; }
     if (!strcmp(op, "close") && n == 1) {
       iwrc rc = f.close(&f);
       is_open = 0;
-      printf("close %s %lld\n", rcname(rc), statsize());
+      printf("close %s %lld", rcname(rc), statsize()); ev_flush();
     } else if (!strcmp(op, "w") && n == 4) {
       long long off = strtoll(w[1], 0, 10); size_t len = strtoull(w[2], 0, 10); unsigned seed = atoi(w[3]);
       uint8_t *b = malloc(len + 1);
       for (size_t i = 0; i < len; ++i) b[i] = (uint8_t) ((seed + i) % 251);
       size_t sp = 777;
       iwrc rc = f.write(&f, off, b, len, &sp);
-      printf("w %s %zu %lld\n", rcname(rc), sp, fsize_now());
+      printf("w %s %zu %lld", rcname(rc), sp, fsize_now()); ev_flush();
       free(b);
     } else if (!strcmp(op, "r") && n == 3) {
       long long off = strtoll(w[1], 0, 10); size_t len = strtoull(w[2], 0, 10);
@@ -103,33 +202,33 @@ int main(int argc, char **argv) {
       memset(b, 0xEE, len + 1);
       size_t sp = 777;
       iwrc rc = f.read(&f, off, b, len, &sp);
-      if (sp > len) { printf("r %s %zu sp-exceeds-request\n", rcname(rc), sp); free(b); continue; }
+      if (sp > len) { printf("r %s %zu sp-exceeds-request", rcname(rc), sp); ev_flush(); free(b); continue; }
       uint32_t h = 2166136261u;
       for (size_t i = 0; i < sp; ++i) { h ^= b[i]; h *= 16777619u; }
       printf("r %s %zu %08x ", rcname(rc), sp, h);
       hx_print(stdout, b, sp < 24 ? sp : 24);
-      printf("\n");
+      ev_flush();
       free(b);
     } else if (!strcmp(op, "cp") && n == 4) {
       iwrc rc = f.copy(&f, strtoll(w[1], 0, 10), strtoull(w[2], 0, 10), strtoll(w[3], 0, 10));
-      printf("cp %s %lld\n", rcname(rc), fsize_now());
+      printf("cp %s %lld", rcname(rc), fsize_now()); ev_flush();
     } else if (!strcmp(op, "tr") && n == 2) {
       iwrc rc = f.truncate(&f, strtoll(w[1], 0, 10));
-      printf("tr %s %lld\n", rcname(rc), fsize_now());
+      printf("tr %s %lld", rcname(rc), fsize_now()); ev_flush();
     } else if (!strcmp(op, "es") && n == 2) {
       iwrc rc = f.ensure_size(&f, strtoll(w[1], 0, 10));
-      printf("es %s %lld\n", rcname(rc), fsize_now());
+      printf("es %s %lld", rcname(rc), fsize_now()); ev_flush();
     } else if (!strcmp(op, "am") && n == 4) {
       iwrc rc = f.add_mmap(&f, strtoll(w[1], 0, 10), strtoull(w[2], 0, 10), (iwfs_ext_mmap_opts_t) atoi(w[3]));
-      printf("am %s\n", rcname(rc));
+      printf("am %s", rcname(rc)); ev_flush();
     } else if (!strcmp(op, "rm") && n == 2) {
-      printf("rm %s\n", rcname(f.remove_mmap(&f, strtoll(w[1], 0, 10))));
+      printf("rm %s", rcname(f.remove_mmap(&f, strtoll(w[1], 0, 10)))); ev_flush();
     } else if (!strcmp(op, "sm") && n == 2) {
-      printf("sm %s\n", rcname(f.sync_mmap(&f, strtoll(w[1], 0, 10), 0)));
+      printf("sm %s", rcname(f.sync_mmap(&f, strtoll(w[1], 0, 10), 0))); ev_flush();
     } else if (!strcmp(op, "pm") && n == 2) {
       uint8_t *mm; size_t sp = 777;
       iwrc rc = f.probe_mmap(&f, strtoll(w[1], 0, 10), &mm, &sp);
-      printf("pm %s %zu\n", rcname(rc), sp);
+      printf("pm %s %zu", rcname(rc), sp); ev_flush();
     } else if (!strcmp(op, "mw") && n == 5) {
       uint8_t *mm; size_t sp = 777;
       size_t rel = strtoull(w[2], 0, 10), len = strtoull(w[3], 0, 10); unsigned seed = atoi(w[4]);
@@ -139,20 +238,65 @@ int main(int argc, char **argv) {
         // to C07); release it here so that the next exclusive operation of this single thread does not block
         iwrc rc2 = rc; iwrc_strip_errno(&rc2);
         if (rc2 == IWFS_ERROR_NOT_MMAPED) f.release_mmap(&f);
-        printf("mw %s %zu\n", rcname(rc), sp); continue;
+        printf("mw %s %zu", rcname(rc), sp); ev_flush(); continue;
       }
       if (rel + len <= sp) {
         for (size_t i = 0; i < len; ++i) mm[rel + i] = (uint8_t) ((seed + i) % 251);
-        printf("mw ok %zu\n", sp);
-      } else printf("mw range %zu\n", sp);
+        printf("mw ok %zu", sp);
+      } else printf("mw range %zu", sp);
       f.release_mmap(&f);
+      ev_flush();
+    } else if (!strcmp(op, "mwr") && n == 5) {
+      uint8_t *mm; size_t sp = 777;
+      size_t rel = strtoull(w[2], 0, 10), len = strtoull(w[3], 0, 10); unsigned seed = atoi(w[4]);
+      long long so = strtoll(w[1], 0, 10);
+      iwrc rc = f.acquire_mmap(&f, so, &mm, &sp);
+      if (rc) {
+        iwrc rc2 = rc; iwrc_strip_errno(&rc2);
+        if (rc2 == IWFS_ERROR_NOT_MMAPED) f.release_mmap(&f);
+        printf("mwr %s %zu", rcname(rc), sp); ev_flush(); continue;
+      }
+      if (rel + len <= sp) {
+        for (size_t i = 0; i < len; ++i) mm[rel + i] = (uint8_t) ((seed + i) % 251);
+        if (lsn_mode) lsnr.onwrite(&lsnr, so + (off_t) rel, mm + rel, (off_t) len, 0);   // the caller's own report
+        printf("mwr ok %zu", sp);
+      } else printf("mwr range %zu", sp);
+      f.release_mmap(&f);
+      ev_flush();
+    } else if (!strcmp(op, "rx") && n == 1) {
+      long long fs = fsize_now();
+      printf("rx %lld", fs);
+      uint8_t *b = malloc(4096);
+      for (long long o = 0, k = 0; o < fs && k < 400; o += 4096, ++k) {
+        size_t sp = 0;
+        size_t want = (size_t) (fs - o < 4096 ? fs - o : 4096);
+        iwrc rc = f.read(&f, o, b, want, &sp);
+        if (rc || sp != want) { printf(" err"); break; }
+        printf(" %08x", fnv(b, sp));
+      }
+      free(b);
+      ev_flush();
+    } else if (!strcmp(op, "fx") && n == 1) {
+      long long fs = statsize();
+      printf("fx %lld", fs);
+      FILE *fp = fopen(path, "rb");
+      uint8_t *b = malloc(4096);
+      for (long long o = 0, k = 0; fp && o < fs && k < 400; o += 4096, ++k) {
+        size_t want = (size_t) (fs - o < 4096 ? fs - o : 4096);
+        size_t got = fread(b, 1, want, fp);
+        if (got != want) { printf(" err"); break; }
+        printf(" %08x", fnv(b, got));
+      }
+      if (fp) fclose(fp);
+      free(b);
+      ev_flush();
     } else if (!strcmp(op, "ra") && n == 1) {
-      printf("ra %s\n", rcname(f.remap_all(&f)));
+      printf("ra %s", rcname(f.remap_all(&f))); ev_flush();
     } else if (!strcmp(op, "sy") && n == 1) {
-      printf("sy %s\n", rcname(f.sync(&f, 0)));
+      printf("sy %s", rcname(f.sync(&f, 0))); ev_flush();
     } else if (!strcmp(op, "st") && n == 1) {
-      printf("st %lld %lld\n", fsize_now(), statsize());
-    } else printf("bad-op\n");
+      printf("st %lld %lld", fsize_now(), statsize()); ev_flush();
+    } else { printf("bad-op"); ev_flush(); }
   }
   do_close();
   return 0;
